@@ -4,6 +4,7 @@ from props.common import svt, gens, summarize_cfg, differential, run_status
 
 ID = "C05"
 LEVEL = "exploration"
+TAG_KEYS = True   # violation keys get the configuration feature tag appended (engine.feature_tag)
 RULE = ("Hypothesis draws (configuration, content, N) with pictures of >=2 SB rows/cols and a set of 3-4 thread settings from logical_processors in "
         "{1,2,3,4,6,8,12,16,0} x unpin {0,1} x target_socket {-1,0}; each setting is encoded in its own process and packets (bytes+metadata) and recon must "
         "equal the logical_processors=1 run. pic_based_rate_est=1 is excluded (documented as lp-1-only). non-trivial = >=2 compared settings completed, the "
